@@ -455,6 +455,36 @@ def legacy_interp_spec(ck):
             ck.fail("interp_spec", f"{what}: got {out[i, j]} expected {ref[i, j]} at f={tf[i]}", case, "interp_spec_value")
 
 
+def legacy_interp_spec_2d(ck):
+    """The two-dimensional (griddata) branch of `interp_spec`, taken when the target directions differ from the source: no
+    negative energy, nothing above the highest source frequency, finite values."""
+    from wavespectra.core.utils import interp_spec
+
+    rng = ck.rng
+    for it in range(25 if ck.tier == "quick" else 400):
+        nf = rng.randint(3, 8)
+        f = np.cumsum([rng.randint(1, 6) for _ in range(nf)]) / 64.0 + 0.03125
+        nd = rng.choice([8, 12, 16])
+        d = np.arange(nd) * (360.0 / nd)
+        E = np.array([[float(rng.randint(1, 9)) for _ in range(nd)] for _ in range(nf)])
+        td = (d + 360.0 / nd / 2) % 360 if rng.random() < 0.5 else np.arange(0.0, 360.0, rng.choice([30.0, 45.0]))
+        tf = np.unique(np.concatenate([f[::2], (f[:-1] + f[1:]) / 2, [f[-1] * 1.05, f[-1] + 0.25, f[-1] * 2]]))
+        case = dict(infreq=f.tolist(), indir=d.tolist(), outfreq=tf.tolist(), outdir=np.asarray(td).tolist(), E=E.tolist())
+        ck.case(("interp_spec_2d", nf > 4, nd, len(td)), True, sample=dict(op="interp_spec(2d)", nf=nf, nd=nd))
+        try:
+            out = np.asarray(interp_spec(E, f, d, outfreq=tf, outdir=np.asarray(td)), dtype=float)
+        except Exception as e:
+            ck.fail("interp_spec", f"2-D branch raised {type(e).__name__}: {e}", case, "crash")
+            continue
+        if out.shape != (len(tf), len(td)):
+            ck.fail("interp_spec", f"2-D branch returned shape {out.shape} for {len(tf)}×{len(td)} targets", case, "interp_spec_shape")
+        elif not np.isfinite(out).all() or (out < 0).any():
+            ck.fail("interp_spec", "2-D branch returned negative or non-finite energy from a positive spectrum", case, "interp_spec_negative")
+        elif (out[tf > f[-1]] != 0).any():
+            ck.fail("interp_spec", f"2-D branch: energy {float(out[tf > f[-1]].max())} above the highest source frequency {f[-1]}", case,
+                    "interp_spec_above_range")
+
+
 def run_check():
     ck = Check("C08")
     ck.extra["rule"] = ("cases = (source grid kind, target grid kind, entry point, container, dtype, maintain_m0 on+off) from the C08 "
@@ -495,6 +525,7 @@ def run_check():
     for (r, pos, base), resp in zip(ctxs, resps):
         check_position(ck, r, pos, base, resp)
     legacy_interp_spec(ck)
+    legacy_interp_spec_2d(ck)
     ck.assumptions = [
         "float arithmetic of scipy.interp1d / numpy is compared with the exact-rational model within 1e-9 of the spectrum's largest "
         "value (1e-5 when the output is float32); Hs within 1e-9 (2e-6 for float32 input)",
